@@ -703,6 +703,20 @@ def _module_constants(mod):
         if len(sts) == 1 and isinstance(sts[0], ast.Assign) and isinstance(sts[0].value, ast.Constant) and isinstance(sts[0].value.value, (str, int)) \
                 and not isinstance(sts[0].value.value, bool):
             out[name] = sts[0].value.value
+    # A, B = 'x', 'y'  bound once at module level
+    seen = {}
+    for st in mod.tree.body:
+        if isinstance(st, ast.Assign):
+            for t in st.targets:
+                for n in ast.walk(t):
+                    if isinstance(n, ast.Name):
+                        seen[n.id] = seen.get(n.id, 0) + 1
+    for st in mod.tree.body:
+        if isinstance(st, ast.Assign) and len(st.targets) == 1 and isinstance(st.targets[0], (ast.Tuple, ast.List)) and isinstance(st.value, (ast.Tuple, ast.List)) \
+                and len(st.targets[0].elts) == len(st.value.elts):
+            for tn, tv in zip(st.targets[0].elts, st.value.elts):
+                if isinstance(tn, ast.Name) and seen.get(tn.id) == 1 and isinstance(tv, ast.Constant) and isinstance(tv.value, (str, int)) and not isinstance(tv.value, bool):
+                    out[tn.id] = tv.value
     return out
 
 
